@@ -238,10 +238,16 @@ def stereo_mol_graph_to_rdmol(
                 ]
             )
 
-            if neighbors in {p[1:] for p in a_stereo._perm_atoms()}:
-                rd_atom.SetUnsignedProp("_chiralPermutation", 1)
-            else:
-                rd_atom.SetUnsignedProp("_chiralPermutation", 2)
+            # the three labels as read by RDMol2StereoMolGraph
+            for label, sp_order in (
+                (1, (0, 1, 2, 3)),
+                (2, (0, 2, 1, 3)),
+                (3, (0, 1, 3, 2)),
+            ):
+                ordered = tuple([neighbors[i] for i in sp_order])
+                if ordered in {p[1:] for p in a_stereo._perm_atoms()}:
+                    rd_atom.SetUnsignedProp("_chiralPermutation", label)
+                    break
 
         elif a_stereo is not None and isinstance(
             a_stereo, TrigonalBipyramidal
